@@ -854,6 +854,51 @@ func runC04(c *Ctx) {
 			}
 		}
 		r.Check("R04.2", FuncName(ds), "record i of a cell holds line i of the cell's text, unchanged, for every line", ds.Pos(), okS, "")
+		// every successful run of the callback records the lines it has just split: no path returns success without
+		// the SetProperty calls (a cell whose item was changed and updated must not keep the lines of an earlier render)
+		{
+			setBlocks := map[*ssa.BasicBlock]bool{}
+			eachInstr(ds, func(in ssa.Instruction) {
+				cc := callCommon(in)
+				if cc == nil {
+					return
+				}
+				name := ""
+				if cc.IsInvoke() {
+					name = cc.Method.Name()
+				} else if f := cc.StaticCallee(); f != nil {
+					name = f.Name()
+				}
+				if name == "SetProperty" {
+					setBlocks[in.Block()] = true
+				}
+			})
+			// a call inside a loop that runs a constant, positive number of times (a table of key/value pairs)
+			// happens whenever the loop is reached
+			for b := range setBlocks {
+				if h := innermostLoopHeader(b); h != nil && constTripAtLeastOne(h) {
+					every := true
+					for _, pred := range h.Preds {
+						if h.Dominates(pred) && !b.Dominates(pred) {
+							every = false
+						}
+					}
+					if every {
+						setBlocks[h] = true
+					}
+				}
+			}
+			reach := blockReach(ds.Blocks[0], func(b *ssa.BasicBlock) bool { return setBlocks[b] })
+			for i, ret := range returnsOf(ds) {
+				ev := results(ret)[len(ret.Results)-1]
+				if !isNil(ev) {
+					continue
+				}
+				bypass := reach[ret.Block()] && !setBlocks[ret.Block()]
+				r.Check("R04.2", FuncName(ds), fmt.Sprintf("return #%d (success) is reached only after the cell's lines were recorded", i+1), ret.Pos(), !bypass && len(setBlocks) > 0,
+					"a path reports success without measuring: the cell keeps the lines recorded by an earlier render")
+			}
+		}
 		// R04.4
 		dims := c.Named("texttable", "dimensions")
 		if dims != nil {
@@ -1438,4 +1483,50 @@ func flowsToWriter(v ssa.Value, depth int) bool {
 func rangeValueIndex(v ssa.Value) ssa.Value {
 	_, idx := sectionOfAny(v)
 	return idx
+}
+
+// constTripAtLeastOne: the loop headed by h is a counting loop from a constant start to a constant bound with at
+// least one iteration:  for i := range <array of N>,  for i := 0; i < N; i++  (N >= 1 a constant).
+func constTripAtLeastOne(h *ssa.BasicBlock) bool {
+	iff, ok := h.Instrs[len(h.Instrs)-1].(*ssa.If)
+	if !ok {
+		return false
+	}
+	b, ok := iff.Cond.(*ssa.BinOp)
+	if !ok || b.Op != token.LSS {
+		return false
+	}
+	n, isK := constInt(b.Y)
+	if !isK {
+		return false
+	}
+	// b.X is phi (init 0) or phi+1 with phi init -1
+	start := int64(0)
+	var phi *ssa.Phi
+	switch x := b.X.(type) {
+	case *ssa.Phi:
+		phi = x
+	case *ssa.BinOp:
+		if q, isPhi := x.X.(*ssa.Phi); isPhi && x.Op == token.ADD {
+			if k, isC := constInt(x.Y); isC {
+				phi, start = q, k
+			}
+		}
+	}
+	if phi == nil || phi.Block() != h {
+		return false
+	}
+	for k, pred := range h.Preds {
+		if h.Dominates(pred) {
+			continue
+		}
+		k0, isC := constInt(phi.Edges[k])
+		if !isC {
+			return false
+		}
+		if k0+start >= n {
+			return false
+		}
+	}
+	return n >= 1
 }
